@@ -141,7 +141,7 @@ def gen_div_pair(rng, fam):
 
 def gen_cases(rng, tier):
     cases = []
-    n = 1 if tier == "quick" else 12
+    n = 1 if tier == "quick" else 8
     for fam in ("I", "Q"):
         for _ in range(140 * n):
             a, b = gen_poly(rng, fam, big=True), gen_poly(rng, fam, big=True)
@@ -350,8 +350,8 @@ def run(ctx):
 def explore(ctx, drv, model, cases, rts, search=False):
     if drv is None or model is None:
         return
-    impl = ctx.run_lines(drv, cases + rts, timeout=1800)
-    mod = ctx.run_lines(model, cases, timeout=1800) + [None] * len(rts)
+    impl = ctx.run_lines(drv, cases + rts, timeout=7200, shards=16)
+    mod = ctx.run_lines(model, cases, timeout=7200, shards=16) + [None] * len(rts)
     # how many cases satisfy the hypotheses of the theorems (fits_u32 / pow_fits / divides_fits)
     hyp = []
     for c in cases:
@@ -362,7 +362,7 @@ def explore(ctx, drv, model, cases, rts, search=False):
             hyp.append("%s powfits %s %s" % (t[0], t[2], t[3]))
         elif t[1] == "div":
             hyp.append("%s divfits %s %s" % (t[0], t[2], t[3]))
-    hv = ctx.run_lines(model, hyp, timeout=1800)
+    hv = ctx.run_lines(model, hyp, timeout=7200, shards=16)
     inside = sum(1 for x in hv if x == "1")
     ctx.notes.append("%d of %d mul/pow/div cases were checked against the theorems' representation-limit hypotheses "
                      "(fits_u32, pow_fits, divides_fits): %d satisfy them" % (len(hyp), len(hyp), inside))
